@@ -334,6 +334,33 @@ def _get(self, args, kwargs, cand):
 
 
 # ------------------------------------------------------------------ driver
+def key_of(key, flags, self, args, kwargs):
+    """the sampling key of a boundary call: method, flags, the classes of its object arguments
+    (a rank-one, a constant and a general factor are different entry points of multiply) and a
+    structure tag for exactly isotropic covariances / precisions (repeated eigenvalues)."""
+    objs = [a for a in list(args) + list(kwargs.values()) if _is_libobj(a)]
+    tag = ",".join(type(a).__name__ for a in objs)
+    iso = False
+    for o in [self] + objs:
+        if not _is_libobj(o):
+            continue
+        for nme in ("Sigma", "Lambda"):
+            a = o.__dict__.get(nme)
+            if a is None or _is_tracer(a) or getattr(a, "ndim", 0) != 3 or a.shape[-1] < 2:
+                continue
+            a = np.asarray(a)
+            d = np.diagonal(a, axis1=-2, axis2=-1)
+            if np.any(np.all(d == d[..., :1], axis=-1) & (np.abs(a).sum((-1, -2)) == np.abs(d).sum(-1))):
+                iso = True
+    # the cache state of the receiver is part of the path taken (lazy inversion, light variants)
+    cold = ""
+    if _is_libobj(self) and "Lambda" in self.__dict__ and "nu" in self.__dict__:
+        missing = [n for n in ("Sigma", "lnZ") if self.__dict__.get(n, 0) is None]
+        if missing:
+            cold = "{no " + ",".join(missing) + "}"
+    return f"{key}[{flags}]" + (f"({tag})" if tag else "") + ("{iso}" if iso else "") + cold
+
+
 def selected(key):
     n = _counts.get(key, 0) + 1
     _counts[key] = n
@@ -417,12 +444,27 @@ def _calm_inputs(*objs):
     return True
 
 
+def _calm_outputs(res):
+    """no entry of the result beyond 1e6 in magnitude (a normaliser 1/Z of a far-tail interval
+    with Z = 1e-16 is computed from a cancelling difference: the value oracle of C20 excludes
+    that regime explicitly, a generic monitor by magnitude)."""
+    leaves = {}
+    _leaves(res, "r", leaves)
+    for a in leaves.values():
+        if isinstance(a, str) or a.dtype.kind != "f" or a.size == 0:
+            continue
+        fin = np.isfinite(a)
+        if fin.any() and float(np.max(np.abs(a[fin]))) > 1e6:
+            return False
+    return True
+
+
 def _run_jit(fn, key, res, self0, args0, kwargs0, rec, report, count):
     import jax
 
     if not _is_libobj(self0):
         return
-    if not _calm_inputs(self0, args0, kwargs0):
+    if not _calm_inputs(self0, args0, kwargs0) or not _calm_outputs(res):
         rec.count("form_jit_out_of_domain")
         return
     # differently rounded executions of an information-form update agree to about eps times the
@@ -453,7 +495,7 @@ def _run_jit(fn, key, res, self0, args0, kwargs0, rec, report, count):
         # what cannot cross a jit boundary on the current tree (measured over all checks): the
         # squared-exponential feature model as an argument, and results that are Python callables
         if type(self0).__name__ in JIT_UNSUPPORTED_CLASSES or "not a valid JAX type" in str(e) \
-                or callable(res):
+                or (callable(res) and not _is_libobj(res)):
             rec.count("form_unsupported:jit")
             if len(rec.notes) < 8:
                 rec.notes.append(f"FORM jit unsupported at {key}: {type(e).__name__}")
@@ -489,10 +531,10 @@ def _run_grad(fn, key, res, self0, args0, kwargs0, rec, report, count):
     import jax
     from jax import numpy as jnp
 
-    if not _is_libobj(self0) or callable(res) or not all_finite(res):
+    if not _is_libobj(self0) or (callable(res) and not _is_libobj(res)) or not all_finite(res):
         return
     if _worst_condition(self0, args0, kwargs0, res) > 1e6 or not _calm_inputs(
-            self0, args0, kwargs0):
+            self0, args0, kwargs0) or not _calm_outputs(res):
         rec.count("form_grad_out_of_domain")
         return
     pos = [i for i, a in enumerate(args0) if _is_dynamic(a)]
@@ -685,16 +727,16 @@ def _run_recall(fn, key, res, self0, args0, kwargs0, rec, report, count):
     n = _counts.get(("recall", key), 0)
     _counts[("recall", key)] = n + 1
     alt = _alt_args(args0, kwargs0, n)
-    if alt is None:
-        return
     c = clone_state(self0)
-    try:
-        fn(c, *alt[0], **alt[1])
-    except Exception:
-        rec.count("form_recall_alt_raises")
-        return
+    if alt is not None:
+        try:
+            fn(c, *alt[0], **alt[1])
+        except Exception:
+            rec.count("form_recall_alt_raises")
+            return
     try:
         again = fn(c, *args0, **kwargs0)
+        third = fn(c, *args0, **kwargs0)
     except Exception as e:
         report("FORM", "recall-raises", key, {"error": repr(e)[:200]})
         return
@@ -709,8 +751,8 @@ def _run_recall(fn, key, res, self0, args0, kwargs0, rec, report, count):
     # again, lets one caller's update / normalize / update_Sigma reach into the other's result
     first, second = [], []
     from . import hooks
-    hooks._collect(res, first)
-    hooks._collect(again, second)
+    hooks._collect(again, first)
+    hooks._collect(third, second)
     if any(o is p for o in first for p in second):
         report("FORM", "recall-same-object", key,
                {"variant": "two calls with the same arguments returned the very same object"})
@@ -826,13 +868,18 @@ def run(fn, name, key, res, pre, state, report, count):
                     break
     # ---- jit variant: the same call traced and compiled, receiver and numeric arguments as
     # traced arguments (pytrees), everything else (strings, index arrays, flags) closed over
-    if n_call <= FIRST_JIT and _jit_selected(key):
-        _run_jit(fn, key, res, self0, args0, kwargs0, rec, report, count)
-        _run_grad(fn, key, res, self0, args0, kwargs0, rec, report, count)
+    # (a call outside the calm-input domain does not use up the key's turn: up to 6 attempts)
+    for tagv, runner in (("jit", _run_jit), ("grad", _run_grad)):
+        done, tries = _counts.get((tagv, key), (0, 0))
+        if done < FIRST_JIT and tries < 6 and _jit_selected(key):
+            before = rec.counters.get(f"form_{tagv}_evaluated", 0)
+            runner(fn, key, res, self0, args0, kwargs0, rec, report, count)
+            ran = rec.counters.get(f"form_{tagv}_evaluated", 0) > before
+            _counts[(tagv, key)] = (done + int(ran), tries + 1)
     # ---- recall and sibling variants
     if _is_libobj(self0) and (n_call <= FIRST_INT or n_call % EVERY == 0):
         _run_recall(fn, key, res, self0, args0, kwargs0, rec, report, count)
-    if _is_libobj(self0) and (n_call <= FIRST or n_call % EVERY == 0):
+    if _is_libobj(self0) and (n_call <= FIRST_INT or n_call % EVERY == 0):
         _run_siblings(name, key, res, self0, args0, kwargs0, rec, report, count)
     # ---- int variant
     cands = _candidates(self0, args0, kwargs0)
